@@ -72,6 +72,13 @@ func responsePathEntries(p *Prog) []*ssa.Function {
 	} {
 		add(p.Func(n))
 	}
+	// the transports the agent wraps around its client towards the proxy: the upload of a
+	// streamed response is a POST whose body passes through their RoundTrip
+	for _, fn := range p.AllFuncsIn("agent/utils") {
+		if fn.Name() == "RoundTrip" && fn.Signature.Recv() != nil && fn.Parent() == nil && fn.Synthetic == "" {
+			add(fn)
+		}
+	}
 	// functions stored to ReverseProxy.ModifyResponse: ShimBody's closure
 	if f := p.Func("agent/websockets.ShimBody"); f != nil {
 		for _, cl := range Closures(f) {
